@@ -62,7 +62,7 @@ theorem good_cacheAdd {e : Env} {as : State} {i : Nat} {w : W} (h : Good e as i 
     Good e as i (w.upd fun nd => { nd with cache := cacheAdd nd.cache m }) := by
   have rn := h.rn
   refine ⟨h.g, ⟨rn.my, rn.lens, rn.chain, rn.height, rn.phase, rn.pidx, rn.prep, rn.commit, rn.cv, rn.lastCv, ?_, rn.own⟩,
-    h.outs, h.st, h.lt⟩
+    h.outs, h.blk, h.st, h.lt⟩
   intro hh box hb km hkm
   simp only [W.upd, cacheAdd] at hb
   split at hb
@@ -135,7 +135,7 @@ theorem prog_or1Dispatch {e : Env} {as : State} {i : Nat} {k : W → Pl → W} {
 theorem prog_onReceive1 {e : Env} {as : State} {i : Nat} {k : W → Pl → W} {w : W} (hk : KOK e i k) (hb : BiK k)
     (h : Good e as i w) (m : Pl) (hc : Claims e as m) : Prog e i as (onReceive1 k e w m) := by
   rw [onReceive1_eq]
-  have h0 : Good e as i { w with hints := w.hints.drop 1 } := ⟨h.g, h.rn, h.outs, h.st, h.lt⟩
+  have h0 : Good e as i { w with hints := w.hints.drop 1 } := ⟨h.g, h.rn, h.outs, h.blk, h.st, h.lt⟩
   by_cases h1 : m.hd.frm ≥ e.n
   · rw [if_pos h1]; exact Prog.of_good h
   rw [if_neg h1]
@@ -156,7 +156,7 @@ theorem kok_onReceive (e : Env) (i : Nat) (fuel : Nat) : KOK e i (onReceive e fu
   induction fuel with
   | zero =>
     intro as w m h _
-    exact Prog.of_good ⟨h.g, h.rn, h.outs, h.st, h.lt⟩
+    exact Prog.of_good ⟨h.g, h.rn, h.outs, h.blk, h.st, h.lt⟩
   | succ f ih =>
     intro as w m h hc
     exact prog_onReceive1 ih (bi_onReceive e f) h m hc
